@@ -206,6 +206,23 @@ impl<'a> Fold<Diagnostic> for TypeResolver<'a> {
                     }
                 }
             }
+            InitialValueAssignmentKind::Simple(init) => {
+                // A simple initializer names its type directly (for example, a global
+                // variable or a variable having an initial value). The type must exist.
+                if !is_elementary_type(&init.type_name)
+                    && !is_unsupported_standard_type(&init.type_name)
+                    && self.types.find(&init.type_name).is_none()
+                {
+                    self.diagnostics.push(
+                        Diagnostic::problem(
+                            Problem::UndeclaredUnknownType,
+                            Label::span(init.type_name.span(), "Variable type"),
+                        )
+                        .with_context_type("identifier", &init.type_name),
+                    );
+                }
+                Ok(InitialValueAssignmentKind::Simple(init))
+            }
             _ => Ok(node),
         }
     }
